@@ -116,8 +116,16 @@ pub fn replay(ctx: &valve::Ctx, maps: &[Value], seed: u64, reps: usize, rep: &mu
             items.push(json!({"k":"f","f":"dropped","ty":"cstr"}));
         }
         let reserved: Vec<Value> = overrides.iter().map(|o| o["rule"].clone()).chain([json!("bat_map_s")]).collect();
+        // ordinary rules; some of them carry the game's own prefix without being one of the override rules: they stay rules
+        let prefixed: Vec<bool> = (0 .. extra).map(|_| rng.gen_bool(0.5)).collect();
+        let reserved_tail: Vec<Value> = reserved.iter().map(|r| json!(r.as_str().unwrap().trim_start_matches("bat_"))).collect();
         for i in 0 .. extra {
-            items.push(json!({"k":"f","f":format!("xk{i}"),"ty":"cstr","uniq":"rulekeys","reserved":reserved}));
+            if prefixed[i] {
+                items.push(json!({"k":"txt","s":"bat_"}));
+                items.push(json!({"k":"f","f":format!("xk{i}"),"ty":"cstr","uniq":"rulekeys_bat","reserved":reserved_tail}));
+            } else {
+                items.push(json!({"k":"f","f":format!("xk{i}"),"ty":"cstr","uniq":"rulekeys","reserved":reserved}));
+            }
             items.push(json!({"k":"f","f":format!("xv{i}"),"ty":"cstr"}));
         }
         let enc = encode(&mut rng, &items, &Default::default());
@@ -133,7 +141,8 @@ pub fn replay(ctx: &valve::Ctx, maps: &[Value], seed: u64, reps: usize, rep: &mu
             rules.insert("bat_map_s".into(), enc.values["dropped"].clone());
         }
         for i in 0 .. extra {
-            rules.insert(enc.values[&format!("xk{i}")].as_str().unwrap().to_string(), enc.values[&format!("xv{i}")].clone());
+            let k = enc.values[&format!("xk{i}")].as_str().unwrap().to_string();
+            rules.insert(if prefixed[i] { format!("bat_{k}") } else { k }, enc.values[&format!("xv{i}")].clone());
         }
         let (batches, mut expected) = valve_exchange(&mut rng, &ctx, &engine, 489_940, Some((payload, Value::Object(rules.clone()))));
         // apply the table
